@@ -1,5 +1,5 @@
 import Qryn.Proofs.LogQLMetric
-import Qryn.Proofs.MetricShortcut
+import Qryn.Proofs.MetricUnion
 /-! # C08 — the SQL generated for LogQL metric queries computes the defined aggregates
 
 Model: `LogQL.planMetric` (tied byte-for-byte to the real planner's SQL text by the `text` stream, its step
@@ -387,6 +387,54 @@ theorem shortcut_equals_function_plan (o : Oracles) (c : MCtx) (hn : c.namesOk) 
       (evalSelA o (d.toDbM c) (planPhases false c q)).map normRow :=
   shortcut_plan_eq_function_plan o c hn d q hs hok hm hms hts htriv hfrom hto
 
+/-- **plan_metric_correct** (the union of the classes above, over the decidable predicate `supported`). For every
+    supported metric query — range aggregation rate / count_over_time / bytes_rate / bytes_over_time over a selector of
+    the C07 fragment with a range that is a positive whole number of milliseconds and at most 63 matchers; alone, under
+    sum/min/max/avg/count `by`/`without`, under topk/bottomk, comparisons anywhere — every context (window, step <, =,
+    > range, signal type, table names) and every database:
+    `evalSelA (planMetric c q)`, value column read as a number, `=` `evalMetric c q`.
+    On the metrics_15s path (`takesShortcut q`) additionally `ShortcutOk`: no negative timestamp and the unplanned
+    (empty-needle) line filters pass every stored line. What is proved is the equality of the *model* plan (tied to the
+    real planner's SQL text byte for byte on every run) under the documented SQL semantics `Sql.SemAgg` with the
+    direct reading; `argMin`/`any`/ORDER BY ties are resolved in evaluation order on both sides (ClickHouse leaves them
+    open); a stream without admissible series row gets `null` labels on both sides. -/
+theorem plan_metric_correct (o : Oracles) (c : MCtx) (hn : c.namesOk) (d : LokiDb) (q : MetricQuery)
+    (hsup : supported q = true) (hsc : takesShortcut q = true → ShortcutOk o d q) :
+    (evalSelA o (d.toDbM c) (planMetric c q)).map normRow = evalMetric o c d q :=
+  planMetric_correct o c hn d q hsup hsc
+
+/-- the full statement of the property for *every* query of the modelled fragment (also unwrapped range aggregations and
+    vector aggregations without grouping clause). Not proved: `vector_agg_ungrouped_counterexample` refutes it for
+    ungrouped aggregations (finding C08/agg-without-grouping-keeps-streams); the unwrap functions are proved stage by
+    stage (`range_fn_unwrap`, `grouping_fingerprint_recomputed_simple`) and searched at plan level by the `sem` stream
+    (the plan orders the entries by timestamp before grouping, the direct reading keeps table order: equal only after
+    the final ORDER BY, for distinct timestamps). -/
+def plan_metric_correct_full : Prop :=
+  ∀ (o : Oracles) (c : MCtx) (d : LokiDb) (q : MetricQuery), c.namesOk → q.rangeAgg.sel.matchers.length ≤ 63 →
+    1000000 ∣ q.rangeAgg.durNs → 0 < q.rangeAgg.durNs → ShortcutOk o d q →
+    (evalSelA o (d.toDbM c) (planMetric c q)).map normRow = evalMetric o c d q
+
+/-- **no entry outside the window (widened at most to whole range buckets) contributes.** Changing, adding or removing
+    entries outside the window the plan reads — `[from, to)` of the planner context, which `FixPeriodPlanner` sets to whole
+    range buckets (`window_widened_to_whole_buckets`); rounded down to whole 15 s slots on the metrics_15s path — does
+    not change a single row of the result. -/
+theorem no_entry_outside_window_contributes (o : Oracles) (c : MCtx) (hn : c.namesOk) (d d' : LokiDb) (q : MetricQuery)
+    (hsup : supported q = true) (hsc : takesShortcut q = true → ShortcutOk o d q ∧ ShortcutOk o d' q)
+    (h : SameInside d d' (effWindow c q).1 (effWindow c q).2) :
+    (evalSelA o (d.toDbM c) (planMetric c q)).map normRow = (evalSelA o (d'.toDbM c) (planMetric c q)).map normRow :=
+  outside_window_irrelevant o c hn d d' q hsup hsc h
+
+/-- **output series are identified by exactly the grouped label set** (plan level). Every row the statement returns for
+    `aggOp by/without g (…)` (also under topk/bottomk, comparisons, step re-bucketing) has as labels exactly what `g`
+    keeps of a label set and as fingerprint cityHash64 of exactly those labels (both `null` for a stream without series
+    row). -/
+theorem output_series_identified_by_grouped_labels_plan (o : Oracles) (c : MCtx) (hn : c.namesOk) (d : LokiDb)
+    (q : MetricQuery) (a : VecAgg) (g : Grouping) (hsup : supported q = true)
+    (hsc : takesShortcut q = true → ShortcutOk o d q)
+    (ha : q.agg? = some a) (hg : chosenGrouping a.byPrefix a.bySuffix = some g) :
+    ∀ r ∈ evalSelA o (d.toDbM c) (planMetric c q), GroupedKL o g (r.get "fingerprint") (r.get "labels") :=
+  output_series_grouped o c hn d q a g hsup hsc ha hg
+
 /-! ## non-vacuity -/
 example : LraRows [[("_string", .str [97, 98])]] [⟨1, 5, [97, 98], 1⟩] := by unfold LraRows; decide
 example : UnwrapRows [[("unwrap_1.value", .rat 2), ("unwrap_1.timestamp_ns", .int 7)]] [(7, 2)] := by unfold UnwrapRows; decide +kernel
@@ -395,5 +443,16 @@ example : (1000000 : Nat) ∣ 5000000000 := by decide
 example : takesShortcut (.range ⟨.lra .rate, ⟨[], []⟩, 60000000000, none, none, none⟩) = true := by decide
 example : takesShortcut (.range ⟨.lra .rate, ⟨[], []⟩, 20000000000, none, none, none⟩) = false := by decide
 example : takesShortcut (.range ⟨.lra .rate, ⟨[], [.line ⟨.notContains, [], none⟩]⟩, 60000000000, none, none, none⟩) = false := by decide
+
+-- the plan-level class is inhabited: sum by (a) (rate({…}[1m])) > 1 under topk, shortcut and not
+example : supported (.topk ⟨true, 2, .agg ⟨.sum, some ⟨true, ["a"]⟩, ⟨.lra .rate, ⟨[], []⟩, 60000000000, none, none, none⟩, none,
+    some ⟨.gt, ⟨1, []⟩⟩⟩, none⟩) = true := by decide
+example : supported (.agg ⟨.count, none, ⟨.lra .bytesOverTime, ⟨[], []⟩, 7000000000, none, none, none⟩, some ⟨false, ["x"]⟩, none⟩) = true := by decide
+example : supported (.agg ⟨.sum, none, ⟨.lra .rate, ⟨[], []⟩, 5000000000, none, none, none⟩, none, none⟩) = false := by decide
+example (o : Oracles) (q : MetricQuery) : ShortcutOk o ⟨[], [], []⟩ q := ⟨by simp, by simp⟩
+example (lo hi : Int) : SameInside ⟨[], [], [⟨1, lo - 1, [], 1⟩]⟩ ⟨[], [], []⟩ lo hi := by
+  refine ⟨rfl, rfl, ?_⟩
+  simp
+  omega
 
 end Qryn.C08
